@@ -45,7 +45,7 @@ PROPS = {
     "C07": {
         "level": "exploration",
         "tests": [
-            {"name": "TestC07", "quick": 1000, "thorough": 60000},
+            {"name": "TestC07", "quick": 2500, "thorough": 60000},
         ],
     },
     "C13": {
